@@ -42,3 +42,306 @@ Proof.
   - intros i Hi. replace i with 0%nat by lia. lra.
   - intros i Hi. lia.
 Qed.
+(* ------------------------------------------------------------------ specification *)
+Definition wvec (n : nat) (M : matQ) (q z : list Q) (i : nat) : Q :=
+  sumQ n (fun j => get M i j * vget z j) + vget q i.
+Definition lcp_solution (n : nat) (M : matQ) (q z : list Q) : Prop :=
+  (forall j, (j < n)%nat -> 0 <= vget z j) /\
+  (forall i, (i < n)%nat -> 0 <= wvec n M q z i) /\
+  (forall i, (i < n)%nat -> vget z i * wvec n M q z i == 0).
+
+Lemma basis_distinct nr L (T : matQ) basis i i' :
+  (L <= nr)%nat -> unit_cols nr L T basis -> (i < L)%nat -> (i' < L)%nat -> i <> i' ->
+  nth i basis 0%nat <> nth i' basis 0%nat.
+Proof.
+  intros HL Hu Hi Hi' Hne E.
+  pose proof (Hu i i Hi ltac:(lia)) as H1. pose proof (Hu i' i Hi' ltac:(lia)) as H2.
+  rewrite E in H1. rewrite H1 in H2. rewrite Nat.eqb_refl in H2. destruct (Nat.eqb_spec i i'); [contradiction|]. lra.
+Qed.
+
+Lemma vget_set_nth (x : list Q) b v j :
+  vget (set_nth x b v) j = if Nat.eqb j b then (if Nat.ltb b (length x) then v else vget x j) else vget x j.
+Proof. unfold vget. apply nth_set_nth. Qed.
+Lemma vget_repeat0 n j : vget (repeat (@nzero Q NumQ) n) j == 0.
+Proof. unfold vget. revert j; induction n; intros [|j]; cbn; try reflexivity. apply IHn. Qed.
+
+Lemma dec_exists_lt (P : nat -> Prop) n :
+  (forall i, {P i} + {~ P i}) -> (exists i, (i < n)%nat /\ P i) \/ (forall i, (i < n)%nat -> ~ P i).
+Proof.
+  intros Hdec. induction n as [|n IH].
+  - right. intros i Hi. lia.
+  - destruct IH as [(i & Hi & HP)|Hno].
+    + left. exists i. split; [lia|auto].
+    + destruct (Hdec n) as [HP|HnP].
+      * left. exists n. split; [lia|auto].
+      * right. intros i Hi. destruct (Nat.eq_dec i n) as [->|]; auto. apply Hno. lia.
+Qed.
+
+Section Lemke.
+Variables (n : nat) (M : matQ) (q d : list Q).
+Hypothesis Hd : forall i, (i < n)%nat -> 0 < vget d i.
+Let nc := (2 * n + 2)%nat.
+
+Definition LT0 : matQ := fst (initialize_tableau n M q d).
+
+Lemma wf_LT0 : wf n nc LT0.
+Proof. apply wf_tab. Qed.
+Lemma LT0_w i j : (i < n)%nat -> (j < n)%nat -> get LT0 i j == if Nat.eqb i j then 1 else 0.
+Proof.
+  intros Hi Hj. unfold LT0, initialize_tableau. cbn [fst]. rewrite get_tab by lia.
+  destruct (Nat.ltb_spec j n); [|lia]. destruct (Nat.eqb i j); reflexivity.
+Qed.
+Lemma LT0_z i j : (i < n)%nat -> (j < n)%nat -> get LT0 i (n + j)%nat == - get M i j.
+Proof.
+  intros Hi Hj. unfold LT0, initialize_tableau. cbn [fst]. rewrite get_tab by lia.
+  destruct (Nat.ltb_spec (n + j) n); [lia|]. destruct (Nat.ltb_spec (n + j) (2 * n)); [|lia].
+  replace (n + j - n)%nat with j by lia. change (nsub nzero ?x) with (Qsubr 0 x). rewrite Qsubr_eq. ring.
+Qed.
+Lemma LT0_z0 i : (i < n)%nat -> get LT0 i (2 * n)%nat == - vget d i.
+Proof.
+  intros Hi. unfold LT0, initialize_tableau. cbn [fst]. rewrite get_tab by lia.
+  destruct (Nat.ltb_spec (2 * n) n); [lia|]. destruct (Nat.ltb_spec (2 * n) (2 * n)); [lia|].
+  rewrite Nat.eqb_refl. change (nsub nzero ?x) with (Qsubr 0 x). rewrite Qsubr_eq. ring.
+Qed.
+Lemma LT0_q i : (i < n)%nat -> get LT0 i (nc - 1)%nat == vget q i.
+Proof.
+  intros Hi. unfold LT0, initialize_tableau. cbn [fst]. rewrite get_tab by (unfold nc; lia).
+  unfold nc. destruct (Nat.ltb_spec (2 * n + 2 - 1) n); [lia|]. destruct (Nat.ltb_spec (2 * n + 2 - 1) (2 * n)); [lia|].
+  destruct (Nat.eqb_spec (2 * n + 2 - 1) (2 * n)); [lia|]. reflexivity.
+Qed.
+
+Definition pairv (v : nat) : nat := if Nat.ltb v n then v else (v - n)%nat.
+
+Record lfin (T : matQ) (basis : list nat) : Prop := {
+  lf_wf : wf n nc T;
+  lf_len : length basis = n;
+  lf_unit : unit_cols n n T basis;
+  lf_sol : forall u, solves n nc T u -> solves n nc LT0 u;
+  lf_rhs : forall i, (i < n)%nat -> 0 <= get T i (nc - 1)%nat;
+  lf_bas : forall i, (i < n)%nat -> (nth i basis 0 < 2 * n)%nat;
+  lf_compl : forall i i', (i < n)%nat -> (i' < n)%nat -> i <> i' ->
+                          pairv (nth i basis 0%nat) <> pairv (nth i' basis 0%nat)
+}.
+
+Record linv (T : matQ) (basis : list nat) (pivcol : nat) : Prop := {
+  li_wf : wf n nc T;
+  li_len : length basis = n;
+  li_unit : unit_cols n n T basis;
+  li_sol : forall u, solves n nc T u -> solves n nc LT0 u;
+  li_rhs : forall i, (i < n)%nat -> 0 <= get T i (nc - 1)%nat;
+  li_bas : forall i, (i < n)%nat -> (nth i basis 0 <= 2 * n)%nat;
+  li_pc : (pivcol < 2 * n)%nat;
+  li_ac1 : forall i, (i < n)%nat -> (nth i basis 0 < 2 * n)%nat -> pairv (nth i basis 0%nat) <> pairv pivcol;
+  li_ac2 : forall i i', (i < n)%nat -> (i' < n)%nat -> i <> i' ->
+                        (nth i basis 0 < 2 * n)%nat -> (nth i' basis 0 < 2 * n)%nat ->
+                        pairv (nth i basis 0%nat) <> pairv (nth i' basis 0%nat)
+}.
+
+Lemma pairv_compl v : (v < 2 * n)%nat -> pairv (if Nat.ltb v n then v + n else v - n)%nat = pairv v.
+Proof.
+  intros Hv. unfold pairv. destruct (Nat.ltb_spec v n).
+  - destruct (Nat.ltb_spec (v + n) n); lia.
+  - destruct (Nat.ltb_spec (v - n) n); lia.
+Qed.
+
+(* complementary pivoting keeps the invariant; success only when z0 has left the basis *)
+Lemma lemke_loop_spec fuel : forall T basis pivcol ni,
+  linv T basis pivcol ->
+  let '(T', basis', success, _, _) := lemke_loop fuel n 0 0 T basis pivcol ni in
+  success = true -> lfin T' basis'.
+Proof.
+  induction fuel as [|f IH]; intros T basis pivcol ni Hinv; cbn [lemke_loop]; [discriminate|].
+  destruct Hinv as [Hwf Hlen Hunit Hsol Hrhs Hbas Hpc Hac1 Hac2].
+  unfold lex_min_ratio_test.
+  assert (En : nrows T = n) by (destruct Hwf; auto). rewrite En.
+  destruct (lex_min_ratio_test_n n T pivcol 0 0 0) as [found pr] eqn:Er.
+  destruct found; cbn [negb]; [|discriminate].
+  pose proof (lex_min_ratio_test_n_spec _ _ _ _ _ _ _ Er) as [Hpr Hp].
+  pose proof (lex_min_ratio_test_n_min _ _ _ _ _ Er) as Hmin.
+  assert (Enc : ncols T = nc) by (apply (wf_ncols n); auto; lia). rewrite Enc in Hmin.
+  assert (Hp0 : ~ get T pr pivcol == 0) by lra.
+  assert (Hbnc : forall i, (i < n)%nat -> (nth i basis 0 < nc)%nat) by (intros i Hi; specialize (Hbas i Hi); unfold nc; lia).
+  assert (Hwf' : wf n nc (pivoting T pivcol pr)) by (apply wf_pivoting; auto).
+  assert (Hunit' : unit_cols n n (pivoting T pivcol pr) (set_nth basis pr pivcol))
+    by (apply (unit_cols_pivoting n nc); auto; unfold nc; lia).
+  assert (Hsol' : forall u, solves n nc (pivoting T pivcol pr) u -> solves n nc LT0 u)
+    by (intros u Hu; apply Hsol; eapply (solves_pivoting_back n nc n); eauto; unfold nc; lia).
+  assert (Hrhs' : forall i, (i < n)%nat -> 0 <= get (pivoting T pivcol pr) i (nc - 1)%nat)
+    by (intros i Hi; eapply (pivoting_rhs_nonneg n nc n); eauto; unfold nc; lia).
+  assert (Hnth : forall i, (i < n)%nat -> nth i (set_nth basis pr pivcol) 0%nat = if Nat.eqb i pr then pivcol else nth i basis 0%nat).
+  { intros i Hi. rewrite nth_set_nth. destruct (Nat.eqb i pr); auto. destruct (Nat.ltb_spec pr (length basis)); auto. lia. }
+  assert (Hdist : forall i, (i < n)%nat -> i <> pr -> nth i basis 0%nat <> nth pr basis 0%nat)
+    by (intros i Hi Hne; eapply (basis_distinct n n T); eauto).
+  destruct (Nat.eqb_spec (nth pr basis 0%nat) (2 * n)) as [Elv|Elv].
+  - intros _. constructor; auto.
+    + now rewrite length_set_nth.
+    + intros i Hi. rewrite Hnth by auto. destruct (Nat.eqb_spec i pr) as [->|Hne]; auto.
+      specialize (Hbas i Hi). specialize (Hdist i Hi Hne). lia.
+    + intros i i' Hi Hi' Hne. rewrite !Hnth by auto.
+      assert (Hlt : forall t, (t < n)%nat -> t <> pr -> (nth t basis 0 < 2 * n)%nat)
+        by (intros t Ht Hne'; specialize (Hbas t Ht); specialize (Hdist t Ht Hne'); lia).
+      destruct (Nat.eqb_spec i pr) as [->|Hn1]; destruct (Nat.eqb_spec i' pr) as [->|Hn2]; try congruence.
+      * intro E. apply (Hac1 i' Hi' (Hlt i' Hi' Hn2)). auto.
+      * apply Hac1; auto.
+      * apply Hac2; auto.
+  - assert (Hlv : (nth pr basis 0 < 2 * n)%nat) by (specialize (Hbas pr Hpr); lia).
+    apply IH. constructor; auto.
+    + now rewrite length_set_nth.
+    + intros i Hi. rewrite Hnth by auto. destruct (Nat.eqb i pr); auto. lia.
+    + destruct (Nat.ltb_spec (nth pr basis 0%nat) n); lia.
+    + intros i Hi. rewrite Hnth by auto. rewrite pairv_compl by auto. destruct (Nat.eqb_spec i pr) as [->|Hne]; intros Hlt.
+      * intro E. apply (Hac1 pr Hpr Hlv). auto.
+      * apply Hac2; auto.
+    + intros i i' Hi Hi' Hne. rewrite !Hnth by auto.
+      destruct (Nat.eqb_spec i pr) as [->|Hn1]; destruct (Nat.eqb_spec i' pr) as [->|Hn2]; try congruence; intros H1 H2.
+      * intro E. apply (Hac1 i' Hi' H2). auto.
+      * apply Hac1; auto.
+      * apply Hac2; auto.
+Qed.
+
+(* ------------------------------------------------------------------ the first pivot (z0 enters) *)
+Hypothesis Hq : length q = n.
+
+Lemma init_linv r :
+  is_last_argmin n (qd q d) r -> (exists i, (i < n)%nat /\ vget q i < 0) ->
+  linv (pivoting LT0 (2 * n) r) (set_nth (seq 0 n) r (2 * n)%nat) (r + n).
+Proof.
+  intros (Hr & Hmin & _) (i0 & Hi0 & Hneg).
+  assert (Hb0 : forall i, (i < n)%nat -> nth i (seq 0 n) 0%nat = i) by (intros; apply seq_nth; auto).
+  assert (Hu0 : unit_cols n n LT0 (seq 0 n)).
+  { intros i k0 Hi Hk. rewrite Hb0 by auto. apply LT0_w; auto. }
+  assert (Hp : get LT0 r (2 * n)%nat == - vget d r) by (apply LT0_z0; auto).
+  assert (Hp0 : ~ get LT0 r (2 * n)%nat == 0) by (specialize (Hd r Hr); lra).
+  assert (Hnth : forall i, (i < n)%nat -> nth i (set_nth (seq 0 n) r (2 * n)%nat) 0%nat = if Nat.eqb i r then (2 * n)%nat else i).
+  { intros i Hi. rewrite nth_set_nth, seq_length. destruct (Nat.eqb i r); [destruct (Nat.ltb_spec r n); [auto|lia]|auto]. }
+  constructor.
+  - apply wf_pivoting; [apply wf_LT0|auto].
+  - now rewrite length_set_nth, seq_length.
+  - apply (unit_cols_pivoting n nc n LT0 (seq 0 n) (2 * n)%nat r);
+      [apply wf_LT0|lia|apply seq_length|auto|unfold nc; lia| |auto|auto].
+    intros i Hi. rewrite Hb0 by auto. unfold nc; lia.
+  - intros u Hu. apply (solves_pivoting_back n nc n LT0 (2 * n)%nat r u); [apply wf_LT0|lia|auto|unfold nc; lia|auto|auto].
+  - intros i Hi. rewrite (get_pivoting n nc) by (auto; try apply wf_LT0; unfold nc; lia).
+    pose proof (Hd r Hr) as Hdr. pose proof (Hd i Hi) as Hdi.
+    assert (Hrneg : qd q d r < 0).
+    { apply Qle_lt_trans with (qd q d i0); [apply Hmin; auto|]. unfold qd.
+      pose proof (Hd i0 Hi0). apply Qlt_shift_div_r; auto. lra. }
+    destruct (Nat.eqb i r); rewrite !LT0_q, !LT0_z0 by auto.
+    + unfold qd in Hrneg. setoid_replace (vget q r / - vget d r) with (- (vget q r / vget d r)) by (field; lra). lra.
+    + specialize (Hmin i Hi). unfold qd in Hmin.
+      setoid_replace (vget q i - vget q r / - vget d r * - vget d i)
+        with (vget d i * (vget q i / vget d i - vget q r / vget d r)) by (field; lra).
+      apply Qmult_le_0_compat; lra.
+  - intros i Hi. rewrite Hnth by auto. destruct (Nat.eqb i r); lia.
+  - lia.
+  - intros i Hi. rewrite Hnth by auto. destruct (Nat.eqb_spec i r) as [->|Hne]; [lia|]. intros _.
+    unfold pairv. destruct (Nat.ltb_spec i n); [|lia]. destruct (Nat.ltb_spec (r + n) n); lia.
+  - intros i i' Hi Hi' Hne. rewrite !Hnth by auto.
+    destruct (Nat.eqb_spec i r); [lia|]. destruct (Nat.eqb_spec i' r); [lia|]. intros _ _.
+    unfold pairv. destruct (Nat.ltb_spec i n); [|lia]. destruct (Nat.ltb_spec i' n); lia.
+Qed.
+
+(* ------------------------------------------------------------------ reading the solution off the final tableau *)
+Lemma z_fold (T : matQ) basis :
+  unit_cols n n T basis ->
+  forall len s z, (s + len <= n)%nat -> length z = n ->
+    (forall j, (j < n)%nat -> vget z j == sumQ s (fun i => if Nat.eqb (nth i basis 0%nat) (n + j) then get T i (nc - 1)%nat else 0)) ->
+    let z' := fold_left (fun z i => let b := nth i basis 0%nat in
+                                    if Nat.leb n b && Nat.ltb b (2 * n)
+                                    then set_nth z (b - n) (get T i (2 * n + 1)%nat) else z) (seq s len) z in
+    length z' = n /\
+    forall j, (j < n)%nat -> vget z' j == sumQ (s + len) (fun i => if Nat.eqb (nth i basis 0%nat) (n + j) then get T i (nc - 1)%nat else 0).
+Proof.
+  intros Hu. induction len as [|len IH]; intros s z Hs Hlen Hz; cbn [seq fold_left].
+  - rewrite Nat.add_0_r. auto.
+  - cbv zeta in IH. replace (s + S len)%nat with (S s + len)%nat by lia. apply IH; [lia| |].
+    + destruct (_ && _); auto. now rewrite length_set_nth.
+    + intros j Hj. cbn [sumQ]. replace (2 * n + 1)%nat with (nc - 1)%nat by (unfold nc; lia).
+      destruct (Nat.leb_spec n (nth s basis 0%nat)) as [H1|H1]; cbn [andb].
+      * destruct (Nat.ltb_spec (nth s basis 0%nat) (2 * n)) as [H2|H2].
+        -- rewrite vget_set_nth, Hlen. destruct (Nat.ltb_spec (nth s basis 0%nat - n) n); [|lia].
+           destruct (Nat.eqb_spec j (nth s basis 0%nat - n)) as [->|Hne].
+           ++ replace (n + (nth s basis 0%nat - n))%nat with (nth s basis 0%nat) by lia. rewrite Nat.eqb_refl.
+              rewrite sumQ_zero; [ring|]. intros i Hi.
+              destruct (Nat.eqb_spec (nth i basis 0%nat) (nth s basis 0%nat)) as [E|]; [|reflexivity].
+              exfalso. eapply (basis_distinct n n T basis i s); eauto; lia.
+           ++ destruct (Nat.eqb_spec (nth s basis 0%nat) (n + j)); [lia|]. rewrite Hz by auto. ring.
+        -- destruct (Nat.eqb_spec (nth s basis 0%nat) (n + j)); [lia|]. rewrite Hz by auto. ring.
+      * destruct (Nat.eqb_spec (nth s basis 0%nat) (n + j)); [lia|]. rewrite Hz by auto. ring.
+Qed.
+
+Lemma lfin_solution T basis : lfin T basis -> lcp_solution n M q (get_solution n T basis).
+Proof.
+  intros [Hwf Hlen Hunit Hsol Hrhs Hbas Hcompl].
+  set (u := bsol n nc T basis). set (z := get_solution n T basis).
+  assert (Hzu : forall j, (j < n)%nat -> vget z j == u (n + j)%nat).
+  { intros j Hj. unfold z, get_solution.
+    destruct (z_fold T basis Hunit n 0 (repeat nzero n)) as [_ H]; auto.
+    - apply repeat_length.
+    - intros j' Hj'. cbn [sumQ]. apply vget_repeat0.
+    - apply H; auto. }
+  assert (Hbnc : forall i, (i < n)%nat -> (nth i basis 0 < nc - 1)%nat) by (intros i Hi; specialize (Hbas i Hi); unfold nc; lia).
+  assert (Hu : solves n nc LT0 u) by (apply Hsol; apply (bsol_solves n); auto).
+  assert (Hu0 : forall j, 0 <= u j) by (intros; apply bsol_nonneg; auto).
+  assert (Hz0 : u (2 * n)%nat == 0).
+  { apply bsol_nonbasic. intros i Hi. specialize (Hbas i Hi). lia. }
+  (* row i of the initial tableau at u:  u_i - (M z)_i - d_i u_{2n} = q_i *)
+  assert (Hw : forall i, (i < n)%nat -> u i == wvec n M q z i).
+  { intros i Hi. pose proof (Hu i Hi) as E.
+    replace (nc - 1)%nat with (n + (n + 1))%nat in E at 1 by (unfold nc; lia).
+    rewrite sumQ_split, sumQ_split in E. cbn [sumQ] in E.
+    rewrite (sumQ_ext n _ (fun j => if Nat.eqb j i then u j else 0)) in E.
+    2:{ intros j Hj. rewrite LT0_w by auto. destruct (Nat.eqb_spec i j), (Nat.eqb_spec j i); try congruence; ring. }
+    rewrite sumQ_delta in E. destruct (Nat.ltb_spec i n); [|lia].
+    rewrite (sumQ_ext n (fun j => get LT0 i (n + j)%nat * u (n + j)%nat) (fun j => (-1) * (get M i j * vget z j))) in E.
+    2:{ intros j Hj. rewrite LT0_z, Hzu by auto. ring. }
+    rewrite sumQ_scale in E.
+    replace (n + (n + 0))%nat with (2 * n)%nat in E by lia. rewrite Hz0 in E.
+    rewrite LT0_q in E by auto. unfold wvec. lra. }
+  split; [|split].
+  - intros j Hj. rewrite Hzu by auto. apply Hu0.
+  - intros i Hi. rewrite <- Hw by auto. apply Hu0.
+  - intros i Hi. rewrite <- Hw, Hzu by auto.
+    destruct (dec_exists_lt (fun t => nth t basis 0%nat = i) n ltac:(intros; apply Nat.eq_dec)) as [(t & Ht & Et)|Hno].
+    + assert (E : u (n + i)%nat == 0).
+      { apply bsol_nonbasic. intros t' Ht' Et'. destruct (Nat.eq_dec t t') as [->|Hne]; [lia|].
+        apply (Hcompl t t' Ht Ht' Hne). rewrite Et, Et'. unfold pairv.
+        destruct (Nat.ltb_spec i n); [|lia]. destruct (Nat.ltb_spec (n + i) n); lia. }
+      rewrite E. ring.
+    + assert (E : u i == 0) by (apply bsol_nonbasic; intros t Ht Et; apply (Hno t Ht Et)).
+      rewrite E. ring.
+Qed.
+
+(* ------------------------------------------------------------------ main theorem *)
+Theorem lemke_success_solution max_iter z status ni :
+  lcp_lemke n M q d max_iter 0 0 = (z, true, status, ni) -> lcp_solution n M q z.
+Proof.
+  unfold lcp_lemke.
+  destruct (forallb (fun x => nleb nzero x) q) eqn:Eq.
+  - intros H. assert (Ez : z = repeat nzero n) by congruence. rewrite Ez. clear H Ez.
+    assert (Hqn : forall i, 0 <= vget q i).
+    { intros i. unfold vget. destruct (Nat.lt_ge_cases i (length q)).
+      - rewrite forallb_forall in Eq. apply nleb_le. apply Eq. apply nth_In; auto.
+      - rewrite nth_overflow by auto. change (@nzero Q NumQ) with 0. lra. }
+    assert (Hw : forall i, wvec n M q (repeat nzero n) i == vget q i).
+    { intros i. unfold wvec. rewrite sumQ_zero; [ring|]. intros j Hj. rewrite vget_repeat0. ring. }
+    split; [|split].
+    + intros j Hj. rewrite vget_repeat0. lra.
+    + intros i Hi. rewrite Hw. auto.
+    + intros i Hi. rewrite vget_repeat0. ring.
+  - assert (Hex : exists i, (i < n)%nat /\ vget q i < 0).
+    { clear - Eq Hq. rewrite <- Hq. clear Hq. induction q as [|x l IH]; cbn [forallb] in Eq; [discriminate|].
+      apply andb_false_iff in Eq. destruct Eq as [E|E].
+      - exists 0%nat. split; [cbn; lia|]. apply nleb_false in E. exact E.
+      - destruct (IH E) as (i & Hi & Hneg). exists (S i). split; [cbn; lia|exact Hneg]. }
+    assert (Hn : (0 < n)%nat) by (destruct Hex as (i & Hi & _); lia).
+    pose proof (init_row_is_argmin n q d Hn) as Harg.
+    pose proof (init_linv _ Harg Hex) as Hinv.
+    unfold lemke_from.
+    change (initialize_tableau n M q d) with (LT0, seq 0 n). cbv beta iota.
+    pose proof (lemke_loop_spec (max_iter - 1) _ _ _ 1%nat Hinv) as Hloop.
+    destruct (lemke_loop (max_iter - 1) n 0 0 (pivoting LT0 (2 * n) (init_row n q d 0))
+                (set_nth (seq 0 n) (init_row n q d 0) (2 * n)%nat) (init_row n q d 0 + n) 1) as [[[[tb bs] su] st] ni'].
+    intros H. assert (Ez : z = get_solution n tb bs /\ su = true) by (split; congruence). destruct Ez as [-> ->]. apply lfin_solution. auto.
+Qed.
+End Lemke.
